@@ -198,9 +198,13 @@ Proof.
   assert (Hd : 0 <= delta * delta) by nra.
   replace (Rabs delta) with (sqrt (delta * delta)) by (rewrite sqrt_square_abs || (rewrite <- sqrt_Rsqr_abs; reflexivity)).
   split.
-  - rewrite <- (sqrt_square (cos (PI / seg))) by exact Hc0.
-    rewrite <- sqrt_mult by nra. apply sqrt_le_1; nra.
-  - rewrite <- (Rmult_1_r (delta * delta)) at 2. apply sqrt_le_1; nra.
+  - assert (Hcc : cos (PI / seg) * cos (PI / seg) <= cos (theta / 2) * cos (theta / 2)) by (apply Rmult_le_compat; lra).
+    assert (Hcc0 : 0 <= cos (PI / seg) * cos (PI / seg)) by (apply Rmult_le_pos; lra).
+    rewrite <- (sqrt_square (cos (PI / seg))) by exact Hc0.
+    rewrite <- sqrt_mult by lra.
+    apply sqrt_le_1; [apply Rmult_le_pos; lra | apply Rmult_le_pos; lra | apply Rmult_le_compat_l; lra].
+  - rewrite <- (Rmult_1_r (delta * delta)) at 2.
+    apply sqrt_le_1; [apply Rmult_le_pos; lra | lra | apply Rmult_le_compat_l; lra].
 Qed.
 
 Lemma round_join_chord_error_bound : forall (V nP : vec) (delta a theta t seg : R),
